@@ -114,8 +114,11 @@ def all_visited_nodes(root):
             continue
         lhs, op, rhs = r
         L, Rr = nf.strip(lhs, True), nf.strip(rhs, True)
-        if op == "<" and L.op == "meth" and L.args[1] == "sum" and Rr.op == "meth" and Rr.args[1] == "size":
-            if "visited" in vg.cells_of(L) and nf.strip(L.args[0], True) is nf.strip(Rr.args[0], True):
+        if op in (">", ">="):
+            # mirrored form: size > sum
+            L, Rr, op = Rr, L, {">": "<", ">=": "<="}[op]
+        if op == "<" and L.op == "meth" and L.args[1] == "sum" and nf.dim_of(Rr) is not None:
+            if "visited" in vg.cells_of(L) and nf.strip(L.args[0], True) is nf.strip(nf.dim_of(Rr)[0], True):
                 out[n.id] = False
     return out
 
@@ -295,7 +298,7 @@ def done_form(ctx: Ctx, name, sl, done, key):
         p, op = c
         atoms_ = p.atoms()
         counts = [a for a in atoms_ if (a.op == "meth" and a.args[1] in ("sum", "count_nonzero")) or nf._fn(a) in ("torch.sum", "torch.count_nonzero")]
-        sizes = [a for a in atoms_ if a.op == "meth" and a.args[1] == "size"]
+        sizes = [a for a in atoms_ if nf.dim_of(a) is not None]
         if len(counts) == 1 and not sizes and p.const_term() == 0:
             coef = [cf for cf, fs in p.monos() if fs and fs[0][0] is counts[0]][0]
             ok = (op == "==0") or (op == ">=0" and coef < 0)
@@ -368,9 +371,12 @@ def rule_e(ctx: Ctx):
                     and isinstance(b.value, ast.Constant) and b.value.value == 1]
             caps = []
             for b in w.body:
-                if isinstance(b, ast.If) and isinstance(b.test, ast.Compare) and len(b.test.ops) == 1 and isinstance(b.test.ops[0], (ast.Gt, ast.GtE)):
+                if isinstance(b, ast.If) and isinstance(b.test, ast.Compare) and len(b.test.ops) == 1 and isinstance(b.test.ops[0], (ast.Gt, ast.GtE, ast.Lt, ast.LtE)):
                     l, r = b.test.left, b.test.comparators[0]
-                    if isinstance(l, ast.Name) and isinstance(r, ast.Name) and r.id == "max_steps" and any(isinstance(x, ast.Break) for x in ast.walk(b)):
+                    if isinstance(b.test.ops[0], (ast.Lt, ast.LtE)):
+                        l, r = r, l          # `max_steps < counter`
+                    # the bound is a parameter of the function (the caller's step limit), the counter the incremented local
+                    if isinstance(l, ast.Name) and isinstance(r, ast.Name) and r.id in fi.params() and any(isinstance(x, ast.Break) for x in ast.walk(b)):
                         caps.append(l.id)
             ok = len(steps) == 1 and len(incs) == 1 and caps == [incs[0].target.id]
             why = f"env.step calls={len(steps)} counter increments={[ast.unparse(i) for i in incs]} caps on={caps}"
